@@ -343,6 +343,49 @@ def as_array(value, n_bits):
     return array.reshape((2,) * n_bits or (1,))
 
 
+def tk_snapshot(t):
+    """ Everything a tket circuit needs to mean what the diagram means. """
+    return (repr(t.get_commands()), repr(sorted(t.post_selection.items())),
+            repr(t.scalar), safe_repr(t.post_processing, 4000),
+            t.n_qubits, t.n_bits)
+
+
+def export_history(rng, ctx, d, tk, snap, expected, n_bits, witness):
+    """
+    Histories on ONE circuit object: its first export is used, disturbed and
+    thrown away by the caller; the circuit did not change, so neither may a
+    second export or a second evaluation through the backend.
+    """
+    disturbance = rng.choice(["none", "edit-first-export", "measure-all-counts",
+                              "run-first-export"])
+    try:
+        if disturbance == "edit-first-export":
+            if tk.n_qubits:
+                tk.X(0)
+            tk.scale(0.5)
+            tk.post_select({k: 1 - v for k, v in tk.post_selection.items()})
+        elif disturbance == "measure-all-counts":
+            d.get_counts(tk_sim.ExactBackend(), measure_all=True)
+        elif disturbance == "run-first-export":
+            tk.get_counts(backend=tk_sim.ExactBackend())
+    except Exception as err:
+        ctx.count("history_disturbance_raised:" + type(err).__name__)
+    ctx.count("export_history:" + disturbance)
+    again = d.to_tk()
+    snap2 = tk_snapshot(again)
+    ctx.expect("export-structure", snap2 == snap,
+               reason="a second export of the same circuit object differs "
+               "from the first", history=disturbance, first=snap, second=snap2,
+               **witness)
+    got = as_array(d.eval(tk_sim.ExactBackend()), n_bits)
+    ctx.expect("export-eval-matches-local",
+               numpy.allclose(got, expected, atol=1e-7),
+               reason="second evaluation through the backend", history=disturbance,
+               got=lambda: numpy.round(got, 5).tolist(),
+               expected=lambda: numpy.round(expected, 5).tolist(),
+               tket=lambda: repr(again), **witness)
+
+
 def export_case(rng, ctx):
     c = _ENV["circuit"]
     clean = ctx.index % 2 == 0
@@ -374,6 +417,7 @@ def export_case(rng, ctx):
         return
     if unsupported:
         ctx.count("unsupported_op_exported_anyway")
+    snap = tk_snapshot(tk)
     ctx.expect("export-structure",
                len(tk.post_processing.cod) == n_bits
                and tk.n_bits - len(tk.post_selection) == len(tk.post_processing.dom),
@@ -411,6 +455,13 @@ def export_case(rng, ctx):
     except Exception as err:
         ctx.fail("export-counts-match-local", exception=type(err).__name__,
                  message=str(err)[:300], **dict(witness, **facts))
+    if same:
+        try:
+            export_history(rng, ctx, d, tk, snap, expected, n_bits, witness)
+        except Exception as err:
+            ctx.fail("export-eval-matches-local", exception=type(err).__name__,
+                     message=str(err)[:300], where="second export / evaluation",
+                     **witness)
     if ("measure" in kinds or "bra" in kinds) and\
             (kinds.count("ket") >= 2 or "swap" in kinds):
         ctx.mark(safe_repr(d, 2000))
@@ -421,8 +472,10 @@ def export_case(rng, ctx):
     if tk.n_qubits + tk.n_bits > 5:
         ctx.count("roundtrip_skipped_too_many_registers")
         return
+    exported = d.to_tk()
+    snap_rt = tk_snapshot(exported)
     try:
-        back = c.Circuit.from_tk(d.to_tk())
+        back = c.Circuit.from_tk(exported)
     except NotImplementedError:
         ctx.expect("refusal-only-if-unsupported",
                    "gate-noimport" in kinds or unsupported,
@@ -435,6 +488,22 @@ def export_case(rng, ctx):
                  tket=lambda: repr(tk), **dict(witness, **facts))
         back = None
     if back is not None:
+        # import leaves its argument alone: same side information afterwards,
+        # and importing the same tket object again gives the same circuit
+        after = tk_snapshot(exported)
+        ctx.expect("roundtrip-eval", after == snap_rt,
+                   reason="from_tk changed the tket circuit it was given",
+                   before=snap_rt, after=after, **witness)
+        try:
+            back2 = c.Circuit.from_tk(exported)
+            ctx.expect("roundtrip-eval", back2 == back,
+                       reason="importing the same tket object twice gives two "
+                       "different circuits", first=lambda: safe_repr(back, 2000),
+                       second=lambda: safe_repr(back2, 2000), **witness)
+        except Exception as err:
+            ctx.fail("roundtrip-eval", exception=type(err).__name__,
+                     message=str(err)[:300], where="second from_tk of the same "
+                     "tket object", **witness)
         ok, why = well_typed(back)
         try:
             value = as_array(back.eval(mixed=True), n_bits)
